@@ -115,6 +115,9 @@ class Prop(GraphProp):
             {**base, "herm": True, "sizes": [1, 3], "npert": 1, "terms": [[1]], "fmt": "implicit", "cap": 2, "comps": [{**comp, "kpm": False}]},
             {**base, "herm": True, "domain": "wrapped", "fmt": "scalar_vecs", "sizes": [1, 2], "npert": 1, "terms": [[1]], "cap": 2,
              "comps": [{**comp, "solver": "custom"}]},
+            # one sympy expression (Taylor-expanded by the library) containing a function with a derivative rule of the caller
+            {**base, "herm": True, "domain": "sym", "fmt": "sympy_expr", "sizes": [1, 1], "npert": 1, "terms": [[1], [2]], "real": True,
+             "fdiff_fn": True, "comps": [comp]},
         ]
         if tier == "thorough":
             fam += [
